@@ -16,13 +16,14 @@ HOW.
  * `HP`        a number: wraps `mpmath.mpf` (or `mpc` after multiplication by a complex constant such as -1j).  All
                arithmetic dunders incl. reflected ones; floats / ints / Fractions met on the way are converted
                EXACTLY (every float is a dyadic rational: 0.5, 0.75, l/2 as exponents are exact); the methods NumPy's
-               object ufunc loops call (`exp`, `sqrt`, `log`, `conjugate`, ...); comparisons; `__float__`.
+               object ufunc loops call (`exp`, `sqrt`, `log`, `conjugate`, ..., further ones from mpmath by name);
+               comparisons; `__float__` (refused while a replay is running: no silent fall-back to doubles).
  * `NPProxy`   stands in for the module-level name `np` of a gbasis module: every attribute is real NumPy's except
                `pi` (HP), the float-array constructors `zeros/ones/empty/full/zeros_like/ones_like` (object arrays of
                HP unless an integer/bool dtype is asked for), the transcendental ufuncs `sqrt/exp/log/power/abs`
                (numeric arrays such as the float result of `factorial2` are first promoted exactly to HP; HP
-               scalars are handled), the predicates `isfinite/isnan/isinf`, and `sum/prod` (NumPy refuses a tuple of axes for object arrays: reduced one axis
-               at a time).  Nothing else of NumPy is re-implemented: indexing, broadcasting, `tensordot`,
+               scalars are handled), the predicates `isfinite/isnan/isinf`, and `sum/prod` (NumPy refuses a tuple of
+               axes for object arrays: reduced one axis at a time).  Nothing else of NumPy is re-implemented: indexing, broadcasting, `tensordot`,
                `transpose`, `squeeze`, `arange`, `maximum`, `linalg.norm` are NumPy's own code on object arrays.
  * `hp_kernel()`  context manager: swaps `np` in every loaded `gbasis.*` module that has such a global (and, in
                `gbasis.evals._deriv`, the SciPy ufunc `eval_hermite`, which cannot take objects, for the three-term
@@ -40,17 +41,34 @@ HOW.
 
 TOLERANCE (why 1e-18 x sum|primitive terms| is sound).  The exact model evaluates every primitive term as
 (product of oracle values pi, sqrt, exp, Boys - each a 72-bit rounding, relative <= 2^-73 = 1.1e-22) x (an exact
-rational polynomial); the sum over primitives is exact (fapx rounds terms at 2^-400, invisible).  With at most ~20
-oracle values per term the model's value therefore differs from the true value by at most ~3e-21 x sum over
-primitive terms of |term| - NOT relative to the (possibly cancelling) contracted value, which is why the scale is
-computed from the primitive terms and not from the block itself.  For the Boys-type kernels a primitive term is a
-short sum over Boys orders with independent roundings; its internal cancellation is covered by the factor ~300
-left between 3e-21 and 1e-18 together with a floor of 1e-3 x the largest scale of the block (an element that
-vanishes by symmetry while its Boys terms do not).  The replay itself carries >= 60 digits.  Detection power: a relative
-perturbation delta of a recursion coefficient moves an element by ~delta x |term|; everything above ~1e-17 is reported.
+rational polynomial) and sums the terms exactly.  With at most ~20 oracle values per term the model's value differs
+from the true value by at most ~3e-21 x sum over primitive terms of |term| - NOT relative to the (possibly
+cancelling) contracted value, which is why the scale is computed from the primitive terms (same routine replayed with
+identity contraction matrices, `prim_shell` + `contract_scale`) and not from the block itself.  Measured on the
+1,336 hp cases of two thorough runs: |hp - model| <= 1.7e-21 x scale, i.e. a margin of ~600 to the tolerance.
+ * separable kernels (moment, differential operator, and what is built from them): tolerance per element
+   1e-18 x max(scale of the element, 1e-3 x largest scale of the block);
+ * Boys-type kernels (one-electron, two-electron): a primitive term is a short sum over Boys orders with independent
+   roundings, an element can vanish by symmetry while its Boys terms do not: 1e-18 x largest scale of the block;
+ * evaluation kernel: the model's own exact scale (command 104: every monomial, coefficient with its absolute value);
+ * absolute floor 1e-100 (`ABS_FLOOR`): the runner's field rounds primitive terms to multiples of 2^-400 before they
+   are multiplied by norms and coefficients, and its exp oracle flushes values below 2^-1100 to 0, so model values of
+   that size are not exact to 1e-18 relative (found on a d/f pair 4.4 bohr apart with exponents 20 and 46: values
+   1e-112, model off by 2e-3 relative).  Blocks whose scale is below 1e-60 are counted as trivial.
+The replay itself carries >= 60 digits (78 with lib.py's 260 bits).  Detection power:
+a relative perturbation delta of a recursion coefficient moves an element by ~delta x |term|: reported down to ~1e-17.
+FALSE-ALARM NOTES.  (1) A case must hand the SAME rational to model and replay: numbers that reach the code as float
+arrays (the point charges of C03, whose wrapper checks the dtype) are snapped to doubles when the case is generated.
+(2) SciPy's factorial2 / comb / perm return integers with 2^-51 noise (gamma-function route): snapped, see
+`_integer_valued`.  (3) Code that starts to do float-only arithmetic on data the replay passes as floats (C03 points)
+would show up here at the 1e-16 level although it is rounding; nothing on the unchanged tree does.
 
-If the replay cannot EXECUTE the current source (a NumPy feature that fails on object arrays), `run_stream` reports a
-broken correspondence (`kind="correspondence"`, printed as no-failing-input-found), never a value verdict.
+If the replay cannot EXECUTE the current source (a NumPy feature that fails on object arrays, or a value forced into
+a double: `HP.__float__` raises while a replay is running), the eval function returns a detail of kind
+"hp-replay-failed" (`try_replay`), which `lib.run_cases` reports as a broken correspondence (`kind="correspondence"`,
+printed as no-failing-input-found, at most twice per run) after all cases of the run - float streams included - have
+been evaluated; never as a value verdict.  On the unchanged tree every kernel replays.
+Switch: VERIF_NO_HP=1 drops the hp cases (timing comparisons).
 """
 import contextlib
 import importlib
@@ -103,6 +121,9 @@ _MP_UNARY = {
     "log1p": mpmath.log1p, "expm1": mpmath.expm1, "exp2": lambda x: mpmath.power(2, x), "cbrt": mpmath.cbrt,
     "rint": mpmath.nint, "trunc": lambda x: mpmath.floor(x) if x >= 0 else mpmath.ceil(x),
 }
+
+
+PROXY = None       # set below, after NPProxy is defined
 
 
 class HP:
@@ -218,6 +239,11 @@ class HP:
         return bool(self.v != 0)
 
     def __float__(self):
+        # Inside a replay nothing may silently fall back to double precision (NumPy calls float(elem) when an object
+        # array is stored into a float array, e.g. one made by a NumPy the proxy did not see): fail loudly instead -
+        # the run then reports a broken replay, not a bogus 1e-16 "formula" difference.
+        if PROXY is not None and PROXY._on:
+            raise TypeError("HP value forced into a double inside a high-precision replay (precision leak)")
         return float(self.v)
 
     def __int__(self):
